@@ -14,8 +14,10 @@ declare -A CHECKS=(
  [load-under-map-lock-free-recheck]="C20 C13 C14 C19"
  [posix-abbr-scan-rewrite]="C16 C12 C01"
  [no-prev-year-shortcut]="C04 C05 C17 C01 C07"
+ [correct-fixed-zone-thread-cache]="C15 C19 C13 C07"
+ [correct-posix-spec-cache]="C16 C12 C01 C02"
 )
-RESULT=benign/RESULTS.txt; : > $RESULT
+RESULT=benign/RESULTS.txt; [ $# -eq 0 ] && : > $RESULT
 for b in ${@:-$(ls benign | grep -v RESULTS)}; do
   [ -f benign/$b/patch.diff ] || continue
   git -C $WT checkout -q -- . && git -C $WT apply $(readlink -f benign/$b/patch.diff) || { echo "$b patch-does-not-apply" | tee -a $RESULT; continue; }
